@@ -220,7 +220,9 @@ fn exec(h: &History, revs: &[Rev]) -> HistOut {
         }
         hh.str(if got.is_ok() { "ok" } else { "err" });
         out.outcomes.push(format!("{}{}:{}", if fsize.is_some() { "full/" } else { "" }, rn, if got.is_ok() { "ok" } else { "err" }));
-        if fsize.is_some() && got.is_err() && expect.is_ok() {
+        if fsize.is_some() && got.is_err() {
+            // (also when the model expected an error anyway: the run may have started to record a missing version
+            // before it got as far as the incompatible one)
             // the run failed because the disk was full (legitimate): whatever it left behind for versions that had
             // no record yet may be incomplete - later runs over those records may fail, like over a torn file.
             // A run that REPORTS SUCCESS on a full disk gets no such allowance: its records must be complete.
